@@ -20,8 +20,11 @@ import YaegiVerif.Proofs.C02Aux
        narrow) compute Go's results for ALL widths w ≤ 64 and ALL operand values — `add_correct` …;
     4. `optable_*`: for EVERY integer entry of the regenerated table, the closure (`evalEntry`) computes Go's
        result for the operator the function is named after — for all widths and all values;
-    5. the divergence F02 (negative signed shift count): partial theorems under `0 ≤ count`, witnesses,
-       `C02_shift_full_statement` and its refutation.
+    5. `C02_shl_full`, `C02_shr_full`: the shifts at full strength (possible since the repair 002dfac of F02), with
+       regression theorems for the repaired findings F02 (`optable_shl_negative_count_panics`) and F02-2
+       (`incdec_uintptr_regression`). The other repaired findings (F02-3, F02-5, F02-7, F02-8) and the open ones
+       (F02-4, F02-9 … F02-13) concern which closure cfg.go selects, argument passing, floating-point / complex /
+       string constants: outside this integer model, they are replayed by the harness on every run.
 
   Float, complex and string closures are covered by the ties (1) and by the enumeration against compiled Go
   only (no kernel IEEE-754 model): see props/C02.json.
@@ -99,7 +102,7 @@ theorem nothing_unrecognised : Generated.C02.unrecognised = [] := by decide
 
 set_option maxRecDepth 100000 in
 /-- every integer-class entry of the REGENERATED operator table has the template's shape: operands read with the
-    extractors of its own class (shift count: the unsigned one), the token of its function, the store of its class -/
+    extractors of its own class (shift count: vUint when constant, genValueShiftCount otherwise), the token of its function, the store of its class -/
 theorem generated_wf : Generated.C02.opTable.all (fun e => !e.cls.isInt || wfEntry e) = true := by decide
 
 theorem generated_widen_wf : wfWiden Generated.C02.widenTable = true := by decide
@@ -179,30 +182,25 @@ theorem binary_correct (op : BinOp) (s : Bool) (x y : BitVec w) (h : w ≤ 64) :
   · exact xor_correct s x y h
   · exact andNot_correct s x y h
 
-/-! ### shifts -/
+/-! ### shifts
 
-/-- the full statement for `<<` (and likewise `>>`): it FAILS on the unchanged code for a negative signed count (F02) -/
-def shl_full_statement : Prop :=
-  ∀ (w cw : Nat) (s cs : Bool) (x : BitVec w) (c : BitVec cw), w ≤ 64 → cw ≤ 64 →
-    shiftop .shl s x cs c = (shl s x cs c).map Val.bits
+  A run-time count is read through genValueShiftCount (`shiftopRun`: a negative count of a signed kind panics), a
+  compile-time count through vUint (`shiftop`: the count as uint64). -/
 
-def shr_full_statement : Prop :=
-  ∀ (w cw : Nat) (s cs : Bool) (x : BitVec w) (c : BitVec cw), w ≤ 64 → cw ≤ 64 →
-    shiftop .shr s x cs c = (shr s x cs c).map Val.bits
+/-- a count that is not negative (always true for an unsigned count): what the type checker guarantees for a
+    CONSTANT count ("the shift count must be non-negative" is a compile-time error otherwise) -/
+def NonNegCount (cs : Bool) {cw : Nat} (c : BitVec cw) : Prop := 0 ≤ value cs c
 
-/-- domain of the partial theorems: the count is not negative (always true for an unsigned count) -/
-def DomShift (cs : Bool) {cw : Nat} (c : BitVec cw) : Prop := 0 ≤ value cs c
+instance (cs : Bool) {cw : Nat} (c : BitVec cw) : Decidable (NonNegCount cs c) := by unfold NonNegCount; infer_instance
 
-instance (cs : Bool) {cw : Nat} (c : BitVec cw) : Decidable (DomShift cs c) := by unfold DomShift; infer_instance
-
-theorem shl_correct_partial (s : Bool) (x : BitVec w) (cs : Bool) {cw : Nat} (c : BitVec cw)
-    (h : w ≤ 64) (hc : cw ≤ 64) (hd : DomShift cs c) :
+theorem shl_constcount_value (s : Bool) (x : BitVec w) (cs : Bool) {cw : Nat} (c : BitVec cw)
+    (h : w ≤ 64) (hc : cw ≤ 64) (hd : NonNegCount cs c) :
     shiftop .shl s x cs c = .val (.bits (wrap w (value s x * 2 ^ (value cs c).toNat))) := by
   simp only [shiftop, apply64, Bool.false_eq_true, false_and, if_false, Outcome.bind, narrowRes, shl64_eq]
   rw [count_toNat cs c hc hd, model_shl s x _ h]
 
-theorem shr_correct_partial (s : Bool) (x : BitVec w) (cs : Bool) {cw : Nat} (c : BitVec cw)
-    (h : w ≤ 64) (hc : cw ≤ 64) (hd : DomShift cs c) :
+theorem shr_constcount_value (s : Bool) (x : BitVec w) (cs : Bool) {cw : Nat} (c : BitVec cw)
+    (h : w ≤ 64) (hc : cw ≤ 64) (hd : NonNegCount cs c) :
     shiftop .shr s x cs c = .val (.bits (wrap w (value s x / 2 ^ (value cs c).toNat))) := by
   simp only [shiftop, apply64, Bool.false_eq_true, false_and, if_false, Outcome.bind, narrowRes, ushr64_eq, sshr64_eq]
   rw [count_toNat cs c hc hd]
@@ -210,39 +208,56 @@ theorem shr_correct_partial (s : Bool) (x : BitVec w) (cs : Bool) {cw : Nat} (c 
   · simp only [Bool.false_eq_true, if_false]; rw [model_ushr x _ h]
   · simp only [if_true]; rw [model_sshr x _ h]
 
-theorem shl_spec_partial (s : Bool) (x : BitVec w) (cs : Bool) {cw : Nat} (c : BitVec cw)
-    (h : w ≤ 64) (hc : cw ≤ 64) (hd : DomShift cs c) :
+/-- `x << c`, `x >> c` with a constant count c ≥ 0 (of any integer kind, counts ≥ width included) -/
+theorem shl_constcount_correct (s : Bool) (x : BitVec w) (cs : Bool) {cw : Nat} (c : BitVec cw)
+    (h : w ≤ 64) (hc : cw ≤ 64) (hd : NonNegCount cs c) :
     shiftop .shl s x cs c = (shl s x cs c).map Val.bits := by
-  rw [shl_correct_partial s x cs c h hc hd]
-  have : ¬ value cs c < 0 := by unfold DomShift at hd; omega
+  rw [shl_constcount_value s x cs c h hc hd]
+  have : ¬ value cs c < 0 := by unfold NonNegCount at hd; omega
   simp [shl, this, Outcome.map]
 
-theorem shr_spec_partial (s : Bool) (x : BitVec w) (cs : Bool) {cw : Nat} (c : BitVec cw)
-    (h : w ≤ 64) (hc : cw ≤ 64) (hd : DomShift cs c) :
+theorem shr_constcount_correct (s : Bool) (x : BitVec w) (cs : Bool) {cw : Nat} (c : BitVec cw)
+    (h : w ≤ 64) (hc : cw ≤ 64) (hd : NonNegCount cs c) :
     shiftop .shr s x cs c = (shr s x cs c).map Val.bits := by
-  rw [shr_correct_partial s x cs c h hc hd]
-  have : ¬ value cs c < 0 := by unfold DomShift at hd; omega
+  rw [shr_constcount_value s x cs c h hc hd]
+  have : ¬ value cs c < 0 := by unfold NonNegCount at hd; omega
   simp [shr, this, Outcome.map]
 
-/-- an unsigned count is always in the domain -/
-theorem domShift_unsigned {cw : Nat} (c : BitVec cw) : DomShift false c := by
-  simp [DomShift, value]
+/-- an unsigned count is never negative -/
+theorem nonNegCount_unsigned {cw : Nat} (c : BitVec cw) : NonNegCount false c := by
+  simp [NonNegCount, value]
 
-/-- F02: `1 << s` with `s := -3` (both int): the model of the unchanged code yields 0, Go panics -/
-theorem shl_negative_count_witness : ¬ shl_full_statement := by
-  intro h
-  have := h 64 64 true true 1#64 (BitVec.ofInt 64 (-3)) (by omega) (by omega)
-  revert this; decide
+/-- **`x << n` with a run-time count, at full strength**: for EVERY count of every integer kind — x * 2^n wrapped for
+    n ≥ 0 (counts ≥ width included), the run-time panic for a negative count of a signed kind. (Before the repair
+    002dfac this held only for n ≥ 0: finding F02.) -/
+theorem shl_correct (s : Bool) (x : BitVec w) (cs : Bool) {cw : Nat} (c : BitVec cw) (h : w ≤ 64) (hc : cw ≤ 64) :
+    shiftopRun .shl s x cs c = (shl s x cs c).map Val.bits := by
+  unfold shiftopRun
+  by_cases hneg : value cs c < 0
+  · rw [if_pos ((count_neg_iff cs c hc).mpr hneg)]
+    simp [shl, hneg, Outcome.map]
+  · rw [if_neg (fun hm => hneg ((count_neg_iff cs c hc).mp hm))]
+    exact shl_constcount_correct s x cs c h hc (by unfold NonNegCount; omega)
 
-/-- F02 for `>>`: `-1 >> s` with `s := -3` yields −1 (sign fill), Go panics -/
-theorem shr_negative_count_witness : ¬ shr_full_statement := by
-  intro h
-  have := h 64 64 true true (BitVec.ofInt 64 (-1)) (BitVec.ofInt 64 (-3)) (by omega) (by omega)
-  revert this; decide
+/-- **`x >> n` with a run-time count, at full strength**: floor(x / 2^n) wrapped for n ≥ 0, the panic for n < 0. -/
+theorem shr_correct (s : Bool) (x : BitVec w) (cs : Bool) {cw : Nat} (c : BitVec cw) (h : w ≤ 64) (hc : cw ≤ 64) :
+    shiftopRun .shr s x cs c = (shr s x cs c).map Val.bits := by
+  unfold shiftopRun
+  by_cases hneg : value cs c < 0
+  · rw [if_pos ((count_neg_iff cs c hc).mpr hneg)]
+    simp [shr, hneg, Outcome.map]
+  · rw [if_neg (fun hm => hneg ((count_neg_iff cs c hc).mp hm))]
+    exact shr_constcount_correct s x cs c h hc (by unfold NonNegCount; omega)
 
-/-- the hypotheses of the partial theorems are satisfiable by non-trivial inputs -/
-example : DomShift true (200#16) ∧ shiftop .shl true (3#8) true (200#16) = .val (.bits 0#8) := by decide
-example : DomShift false (7#8) ∧ shiftop .shr true (BitVec.ofInt 8 (-128)) false (7#8) = .val (.bits (BitVec.ofInt 8 (-1))) := by decide
+/-- regression for F02: `1 << s` with `s := -3` (both int) panics, `-1 >> s` too; an int8 count −128 as well -/
+example : shiftopRun .shl true 1#64 true (BitVec.ofInt 64 (-3)) = (.panicShift : Outcome (Val 64)) := by decide
+example : shiftopRun .shr true (BitVec.ofInt 64 (-1)) true (BitVec.ofInt 64 (-3)) = (.panicShift : Outcome (Val 64)) := by decide
+example : shiftopRun .shl false 1#8 true (BitVec.ofInt 8 (-128)) = (.panicShift : Outcome (Val 8)) := by decide
+/-- … and non-negative counts still shift (counts ≥ width included; an unsigned count with the top bit set is not negative) -/
+example : shiftopRun .shl true (3#8) true (200#16) = .val (.bits 0#8) := by decide
+example : shiftopRun .shr true (BitVec.ofInt 8 (-128)) false (7#8) = .val (.bits (BitVec.ofInt 8 (-1))) := by decide
+example : shiftopRun .shr true (BitVec.ofInt 8 (-128)) false (255#8) = .val (.bits (BitVec.ofInt 8 (-1))) := by decide
+example : NonNegCount true (200#16) ∧ shiftop .shl true (3#8) true (200#16) = .val (.bits 0#8) := by decide
 
 /-! ### comparisons -/
 
@@ -363,30 +378,64 @@ theorem optable_compare_correct (e : Entry) (he : e ∈ Generated.C02.opTable) (
   rw [entry_binary _ generated_widen_wf e hwf hg x y, (wf_unpack e hwf).2.2.2.2.1, ht]
   exact cmp_correct op _ x y h
 
-/-- **Shift closures**, for a count of any integer kind (cs, cw); partial: the count must not be negative (F02). -/
-theorem optable_shl_partial (e : Entry) (he : e ∈ Generated.C02.opTable) (hi : e.cls.isInt = true)
-    (hfn : e.fn = .f_shl ∨ e.fn = .f_shlAssign ∨ e.fn = .f_shlConst)
-    {w cw : Nat} (h : w ≤ 64) (hc : cw ≤ 64) (x : BitVec w) (cs : Bool) (c : BitVec cw) (hd : DomShift cs c) :
+/-- **Shift closures with a run-time count** (`shl`, `shr` in the variants interface destination / constant left / two
+    variables, `shlAssign`, `shrAssign` with a variable count), at full strength: for a count of ANY integer kind
+    (cs, cw) and ANY value — x * 2^n resp. floor(x / 2^n) wrapped for n ≥ 0 (counts ≥ width included), the run-time panic
+    for a negative count of a signed kind. No side condition (before the repair 002dfac: n ≥ 0 only, finding F02). -/
+theorem optable_shl_correct (e : Entry) (he : e ∈ Generated.C02.opTable) (hi : e.cls.isInt = true)
+    (hfn : e.fn = .f_shl ∨ e.fn = .f_shlAssign) (hv : e.variant ≠ .cr)
+    {w cw : Nat} (h : w ≤ 64) (hc : cw ≤ 64) (x : BitVec w) (cs : Bool) (c : BitVec cw) :
     evalEntry Generated.C02.widenTable e (.typed e.cls.signed w x) (.typed cs cw c) e.cls.signed w
       = (shl e.cls.signed x cs c).map Val.bits := by
   have hwf := wf_of_mem e he hi
-  have hg : e.fn.group = .shift ∨ e.fn.group = .shiftAssign ∨ e.fn.group = .shiftFold := by
-    rcases hfn with h | h | h <;> simp [h, Fn.group]
-  have ht : e.fn.tok = .shl := by rcases hfn with h | h | h <;> simp [h, Fn.tok]
-  rw [entry_shift _ generated_widen_wf e hwf hg x cs c, (wf_unpack e hwf).2.2.2.2.1, ht]
-  exact shl_spec_partial _ x cs c h hc hd
+  have hg : RunCount e := ⟨hv, by rcases hfn with h | h <;> simp [h, Fn.group]⟩
+  have ht : e.fn.tok = .shl := by rcases hfn with h | h <;> simp [h, Fn.tok]
+  rw [entry_shift_run _ generated_widen_wf e hwf hg x cs c, (wf_unpack e hwf).2.2.2.2.1, ht]
+  exact shl_correct _ x cs c h hc
 
-theorem optable_shr_partial (e : Entry) (he : e ∈ Generated.C02.opTable) (hi : e.cls.isInt = true)
-    (hfn : e.fn = .f_shr ∨ e.fn = .f_shrAssign ∨ e.fn = .f_shrConst)
-    {w cw : Nat} (h : w ≤ 64) (hc : cw ≤ 64) (x : BitVec w) (cs : Bool) (c : BitVec cw) (hd : DomShift cs c) :
+theorem optable_shr_correct (e : Entry) (he : e ∈ Generated.C02.opTable) (hi : e.cls.isInt = true)
+    (hfn : e.fn = .f_shr ∨ e.fn = .f_shrAssign) (hv : e.variant ≠ .cr)
+    {w cw : Nat} (h : w ≤ 64) (hc : cw ≤ 64) (x : BitVec w) (cs : Bool) (c : BitVec cw) :
     evalEntry Generated.C02.widenTable e (.typed e.cls.signed w x) (.typed cs cw c) e.cls.signed w
       = (shr e.cls.signed x cs c).map Val.bits := by
   have hwf := wf_of_mem e he hi
-  have hg : e.fn.group = .shift ∨ e.fn.group = .shiftAssign ∨ e.fn.group = .shiftFold := by
-    rcases hfn with h | h | h <;> simp [h, Fn.group]
-  have ht : e.fn.tok = .shr := by rcases hfn with h | h | h <;> simp [h, Fn.tok]
-  rw [entry_shift _ generated_widen_wf e hwf hg x cs c, (wf_unpack e hwf).2.2.2.2.1, ht]
-  exact shr_spec_partial _ x cs c h hc hd
+  have hg : RunCount e := ⟨hv, by rcases hfn with h | h <;> simp [h, Fn.group]⟩
+  have ht : e.fn.tok = .shr := by rcases hfn with h | h <;> simp [h, Fn.tok]
+  rw [entry_shift_run _ generated_widen_wf e hwf hg x cs c, (wf_unpack e hwf).2.2.2.2.1, ht]
+  exact shr_correct _ x cs c h hc
+
+/-- **Shift closures with a compile-time count** (variant constant-right of `shl`, `shr`, `shlAssign`, `shrAssign`, and
+    the folding functions `shlConst`, `shrConst`): Go's result for every constant count the language allows
+    (`NonNegCount`: a negative constant count is a compile-time error, there is no run-time behaviour to compare). -/
+theorem optable_shl_constcount_correct (e : Entry) (he : e ∈ Generated.C02.opTable) (hi : e.cls.isInt = true)
+    (hfn : ((e.fn = .f_shl ∨ e.fn = .f_shlAssign) ∧ e.variant = .cr) ∨ e.fn = .f_shlConst)
+    {w cw : Nat} (h : w ≤ 64) (hc : cw ≤ 64) (x : BitVec w) (cs : Bool) (c : BitVec cw) (hd : NonNegCount cs c) :
+    evalEntry Generated.C02.widenTable e (.typed e.cls.signed w x) (.typed cs cw c) e.cls.signed w
+      = (shl e.cls.signed x cs c).map Val.bits := by
+  have hwf := wf_of_mem e he hi
+  have hg : ConstCount e := by
+    rcases hfn with ⟨h | h, hv⟩ | h
+    · exact Or.inl ⟨hv, by simp [h, Fn.group]⟩
+    · exact Or.inl ⟨hv, by simp [h, Fn.group]⟩
+    · exact Or.inr (by simp [h, Fn.group])
+  have ht : e.fn.tok = .shl := by rcases hfn with ⟨h | h, _⟩ | h <;> simp [h, Fn.tok]
+  rw [entry_shift_const _ generated_widen_wf e hwf hg x cs c, (wf_unpack e hwf).2.2.2.2.1, ht]
+  exact shl_constcount_correct _ x cs c h hc hd
+
+theorem optable_shr_constcount_correct (e : Entry) (he : e ∈ Generated.C02.opTable) (hi : e.cls.isInt = true)
+    (hfn : ((e.fn = .f_shr ∨ e.fn = .f_shrAssign) ∧ e.variant = .cr) ∨ e.fn = .f_shrConst)
+    {w cw : Nat} (h : w ≤ 64) (hc : cw ≤ 64) (x : BitVec w) (cs : Bool) (c : BitVec cw) (hd : NonNegCount cs c) :
+    evalEntry Generated.C02.widenTable e (.typed e.cls.signed w x) (.typed cs cw c) e.cls.signed w
+      = (shr e.cls.signed x cs c).map Val.bits := by
+  have hwf := wf_of_mem e he hi
+  have hg : ConstCount e := by
+    rcases hfn with ⟨h | h, hv⟩ | h
+    · exact Or.inl ⟨hv, by simp [h, Fn.group]⟩
+    · exact Or.inl ⟨hv, by simp [h, Fn.group]⟩
+    · exact Or.inr (by simp [h, Fn.group])
+  have ht : e.fn.tok = .shr := by rcases hfn with ⟨h | h, _⟩ | h <;> simp [h, Fn.tok]
+  rw [entry_shift_const _ generated_widen_wf e hwf hg x cs c, (wf_unpack e hwf).2.2.2.2.1, ht]
+  exact shr_constcount_correct _ x cs c h hc hd
 
 /-- **`x++`, `x--`.** -/
 theorem optable_incdec_correct (e : Entry) (he : e ∈ Generated.C02.opTable) (hi : e.cls.isInt = true)
@@ -411,31 +460,46 @@ theorem optable_unary_correct (e : Entry) (he : e ∈ Generated.C02.opTable) (hi
   exact unary_correct op _ x h
 
 set_option maxRecDepth 100000 in
-/-- the five theorems above are not vacuous and leave nothing out: the regenerated table has 126 + 84 + 28 + 14 + 4 = 256
-    integer-class entries, and every one of them falls under exactly the hypotheses of one of the theorems -/
+/-- the theorems above are not vacuous and leave nothing out: the regenerated table has 126 + 84 + (16 + 12) + 14 + 4 = 256
+    integer-class entries (16 shift closures with a run-time count, 12 with a compile-time count), and every one of them
+    falls under exactly the hypotheses of one of the theorems; the inc / dec entries are those of the classes int and
+    uint (uintptr included: repair 517ecf5 of F02-2), no entry is left in the class without uintptr -/
 theorem optable_covered :
     (Generated.C02.opTable.filter (fun e => e.cls.isInt && (goBinary e.fn).isSome)).length = 126 ∧
     (Generated.C02.opTable.filter (fun e => e.cls.isInt && (goCompare e.fn).isSome)).length = 84 ∧
     (Generated.C02.opTable.filter (fun e => e.cls.isInt &&
-        (e.fn == .f_shl || e.fn == .f_shlAssign || e.fn == .f_shlConst || e.fn == .f_shr || e.fn == .f_shrAssign || e.fn == .f_shrConst))).length = 28 ∧
+        (e.fn == .f_shl || e.fn == .f_shlAssign || e.fn == .f_shr || e.fn == .f_shrAssign) && e.variant != .cr)).length = 16 ∧
+    (Generated.C02.opTable.filter (fun e => e.cls.isInt &&
+        ((e.fn == .f_shl || e.fn == .f_shlAssign || e.fn == .f_shr || e.fn == .f_shrAssign) && e.variant == .cr ||
+          e.fn == .f_shlConst || e.fn == .f_shrConst))).length = 12 ∧
     (Generated.C02.opTable.filter (fun e => e.cls.isInt && (goUnary e.fn).isSome)).length = 14 ∧
     (Generated.C02.opTable.filter (fun e => e.cls.isInt && (e.fn == .f_inc || e.fn == .f_dec))).length = 4 ∧
+    (Generated.C02.opTable.filter (fun e => (e.cls == .int || e.cls == .uint) && (e.fn == .f_inc || e.fn == .f_dec))).length = 4 ∧
+    (Generated.C02.opTable.filter (fun e => e.cls == .uintNoPtr)).length = 0 ∧
     (Generated.C02.opTable.filter (fun e => e.cls.isInt)).length = 256 := by
   decide
 
-/-- F02 at the level of the table: EVERY integer `<<` closure of the regenerated table, run on `1 << s` with
-    s = −3 of type int, yields 0 where Go panics (this is the replay input of the known finding F02) -/
-theorem optable_shl_negative_count_witness (e : Entry) (he : e ∈ Generated.C02.opTable) (hi : e.cls.isInt = true)
-    (hfn : e.fn = .f_shl ∨ e.fn = .f_shlAssign ∨ e.fn = .f_shlConst) :
+/-- regression for F02 at the level of the table: EVERY integer `<<` closure with a run-time count, run on `1 << s` with
+    s = −3 of type int (the replay input of F02), panics like Go (it yielded 0 before the repair 002dfac) -/
+theorem optable_shl_negative_count_panics (e : Entry) (he : e ∈ Generated.C02.opTable) (hi : e.cls.isInt = true)
+    (hfn : e.fn = .f_shl ∨ e.fn = .f_shlAssign) (hv : e.variant ≠ .cr) :
     evalEntry Generated.C02.widenTable e (.typed e.cls.signed 64 1#64) (.typed true 64 (BitVec.ofInt 64 (-3))) e.cls.signed 64
-      = .val (.bits 0#64) ∧
+      = .panicShift ∧
     shl e.cls.signed (1#64) true (BitVec.ofInt 64 (-3)) = .panicShift := by
-  have hwf := wf_of_mem e he hi
-  have hg : e.fn.group = .shift ∨ e.fn.group = .shiftAssign ∨ e.fn.group = .shiftFold := by
-    rcases hfn with h | h | h <;> simp [h, Fn.group]
-  have ht : e.fn.tok = .shl := by rcases hfn with h | h | h <;> simp [h, Fn.tok]
-  rw [entry_shift _ generated_widen_wf e hwf hg, (wf_unpack e hwf).2.2.2.2.1, ht]
+  rw [optable_shl_correct e he hi hfn hv (by omega) (by omega)]
   cases e.cls.signed <;> decide
+
+set_option maxRecDepth 100000 in
+/-- regression for F02-2: the regenerated table has an `inc` and a `dec` closure for the unsigned class that includes
+    uintptr, and on `p := uintptr(5); p++` / `p--` (the replay input of F02-2) they yield 6 / 4; 0-- wraps -/
+theorem incdec_uintptr_regression :
+    (∃ e ∈ Generated.C02.opTable, e.fn = .f_inc ∧ e.cls = .uint ∧
+      evalEntry Generated.C02.widenTable e (.typed false 64 5#64) .absent false 64 = .val (.bits 6#64)) ∧
+    (∃ e ∈ Generated.C02.opTable, e.fn = .f_dec ∧ e.cls = .uint ∧
+      evalEntry Generated.C02.widenTable e (.typed false 64 5#64) .absent false 64 = .val (.bits 4#64) ∧
+      evalEntry Generated.C02.widenTable e (.typed false 64 0#64) .absent false 64 = .val (.bits (BitVec.allOnes 64))) := by
+  refine ⟨⟨⟨.f_inc, .uint, .plain, .none, ⟨.genValueUint, 0, .none⟩, ⟨.lit1, 9, .none⟩, .add, .setUint, .inplace⟩, ?_, rfl, rfl, ?_⟩,
+          ⟨⟨.f_dec, .uint, .plain, .none, ⟨.genValueUint, 0, .none⟩, ⟨.lit1, 9, .none⟩, .sub, .setUint, .inplace⟩, ?_, rfl, rfl, ?_, ?_⟩⟩ <;> decide
 
 /-! ### constant operands
 
@@ -474,8 +538,7 @@ theorem load_untyped (W : List WidenEntry) (hW : wfWiden W = true) (s : Bool) {w
     (v : Int) (hr : InRange s w v) (b : Arg) :
     loadOperand W ⟨vX s, 0, .none⟩ (.untyped v) b = loadOperand W ⟨vX s, 0, .none⟩ (.typed s w (wrap w v)) b := by
   rw [(load_g W hW s s 0 (wrap w v) (.typed s w (wrap w v)) b (by simp)).2]
-  simp only [wfWiden, Bool.and_eq_true, beq_iff_eq] at hW
-  obtain ⟨⟨_, h9⟩, h10⟩ := hW
+  obtain ⟨_, _, _, _, _, _, _, _, h9, h10, _, _⟩ := wfWiden_unpack W hW
   have := const_widen s h0 h v hr
   cases s <;> simp [loadOperand, vX, Arg.cls, h9, h10, evalConv, Outcome.map, this]
 
@@ -530,31 +593,62 @@ theorem shr_exec_eq (s : Bool) {w : Nat} (x : BitVec w) (cs : Bool) {cw : Nat} (
       · simp [hv, wrap]
     · simp only [hbig, if_false]
 
-/-! ## 5. The property at full strength on the integer kinds, and why only a partial version holds -/
+/-! ## 5. The property at full strength on the integer kinds
 
-/-- Full strength: EVERY integer shift closure of the regenerated table yields Go's outcome for EVERY count, including
-    the run-time panic on a negative count. (The other operator families are proved at full strength above.) -/
-def C02_shift_full_statement : Prop :=
-  ∀ e ∈ Generated.C02.opTable, e.cls.isInt = true → (e.fn = .f_shl ∨ e.fn = .f_shlAssign ∨ e.fn = .f_shlConst) →
-    ∀ (w cw : Nat), w ≤ 64 → cw ≤ 64 → ∀ (x : BitVec w) (cs : Bool) (c : BitVec cw),
-      evalEntry Generated.C02.widenTable e (.typed e.cls.signed w x) (.typed cs cw c) e.cls.signed w
-        = (shl e.cls.signed x cs c).map Val.bits
+  Sections 3–4 prove every operator family at full strength. For the shifts this became possible with the repair
+  002dfac (F02): the statement below is the former `C02_shift_full_statement`, which the unrepaired code refuted. -/
+
+/-- Full strength: EVERY integer `<<` closure of the regenerated table yields Go's outcome for EVERY count the language
+    allows there — any count at all (including the run-time panic on a negative one) when the count is a run-time value,
+    any non-negative count when it is a constant. -/
+theorem C02_shl_full (e : Entry) (he : e ∈ Generated.C02.opTable) (hi : e.cls.isInt = true)
+    (hfn : e.fn = .f_shl ∨ e.fn = .f_shlAssign ∨ e.fn = .f_shlConst)
+    {w cw : Nat} (h : w ≤ 64) (hc : cw ≤ 64) (x : BitVec w) (cs : Bool) (c : BitVec cw)
+    (hconst : e.variant = .cr ∨ e.fn = .f_shlConst → NonNegCount cs c) :
+    evalEntry Generated.C02.widenTable e (.typed e.cls.signed w x) (.typed cs cw c) e.cls.signed w
+      = (shl e.cls.signed x cs c).map Val.bits := by
+  by_cases hk : e.variant = .cr ∨ e.fn = .f_shlConst
+  · refine optable_shl_constcount_correct e he hi ?_ h hc x cs c (hconst hk)
+    rcases hk with hv | hf
+    · rcases hfn with h1 | h1 | h1
+      · exact Or.inl ⟨Or.inl h1, hv⟩
+      · exact Or.inl ⟨Or.inr h1, hv⟩
+      · exact Or.inr h1
+    · exact Or.inr hf
+  · have hv : e.variant ≠ .cr := fun hv => hk (Or.inl hv)
+    have hf : e.fn ≠ .f_shlConst := fun hf => hk (Or.inr hf)
+    refine optable_shl_correct e he hi ?_ hv h hc x cs c
+    rcases hfn with h1 | h1 | h1
+    · exact Or.inl h1
+    · exact Or.inr h1
+    · exact absurd h1 hf
+
+theorem C02_shr_full (e : Entry) (he : e ∈ Generated.C02.opTable) (hi : e.cls.isInt = true)
+    (hfn : e.fn = .f_shr ∨ e.fn = .f_shrAssign ∨ e.fn = .f_shrConst)
+    {w cw : Nat} (h : w ≤ 64) (hc : cw ≤ 64) (x : BitVec w) (cs : Bool) (c : BitVec cw)
+    (hconst : e.variant = .cr ∨ e.fn = .f_shrConst → NonNegCount cs c) :
+    evalEntry Generated.C02.widenTable e (.typed e.cls.signed w x) (.typed cs cw c) e.cls.signed w
+      = (shr e.cls.signed x cs c).map Val.bits := by
+  by_cases hk : e.variant = .cr ∨ e.fn = .f_shrConst
+  · refine optable_shr_constcount_correct e he hi ?_ h hc x cs c (hconst hk)
+    rcases hk with hv | hf
+    · rcases hfn with h1 | h1 | h1
+      · exact Or.inl ⟨Or.inl h1, hv⟩
+      · exact Or.inl ⟨Or.inr h1, hv⟩
+      · exact Or.inr h1
+    · exact Or.inr hf
+  · have hv : e.variant ≠ .cr := fun hv => hk (Or.inl hv)
+    have hf : e.fn ≠ .f_shrConst := fun hf => hk (Or.inr hf)
+    refine optable_shr_correct e he hi ?_ hv h hc x cs c
+    rcases hfn with h1 | h1 | h1
+    · exact Or.inl h1
+    · exact Or.inr h1
+    · exact absurd h1 hf
 
 set_option maxRecDepth 100000 in
-theorem shl_entry_exists : ∃ e ∈ Generated.C02.opTable, e.cls.isInt = true ∧ e.fn = .f_shl := by
-  refine ⟨⟨.f_shl, .int, .vv, .none, ⟨.genValueInt, 0, .none⟩, ⟨.genValueUint, 1, .none⟩, .shl, .setInt, .dest⟩, ?_, rfl, rfl⟩
+/-- the run-time-count theorems are not vacuous: the regenerated table has such a closure -/
+theorem shl_entry_exists : ∃ e ∈ Generated.C02.opTable, e.cls.isInt = true ∧ e.fn = .f_shl ∧ e.variant ≠ .cr := by
+  refine ⟨⟨.f_shl, .int, .vv, .none, ⟨.genValueInt, 0, .none⟩, ⟨.genValueShiftCount, 1, .none⟩, .shl, .setInt, .dest⟩, ?_, rfl, rfl, by decide⟩
   decide
-
-/-- the unchanged code does not satisfy the full statement (F02): the partial theorems `optable_shl_partial`,
-    `optable_shr_partial` carry the side condition `DomShift` (count ≥ 0), whose complement is exactly the class
-    `shift-negative-count` of KNOWN_FINDINGS.json -/
-theorem C02_shift_full_statement_fails : ¬ C02_shift_full_statement := by
-  intro h
-  obtain ⟨e, he, hi, hf⟩ := shl_entry_exists
-  have hw := (optable_shl_negative_count_witness e he hi (Or.inl hf)).1
-  have hs := (optable_shl_negative_count_witness e he hi (Or.inl hf)).2
-  have := h e he hi (Or.inl hf) 64 64 (by omega) (by omega) 1#64 true (BitVec.ofInt 64 (-3))
-  rw [hw, hs] at this
-  simp [Outcome.map] at this
 
 end YaegiVerif.Props.C02
